@@ -34,15 +34,19 @@ let seg_of (x : t) : seg =
   | L [A t; a] -> (Some (segtype_of t), attrs_of a)
   | _ -> failwith ("bad segment " ^ to_string x)
 
+(* "sqn" / "dqn": quote-demarcated with the OTHER quote character written bare, in pairs (st_nest) *)
 let quote_of = function
-  | A "none" -> None | A "sq" -> Some SQ | A "dq" -> Some DQ
+  | A "none" -> None | A "sq" | A "sqn" -> Some SQ | A "dq" | A "dqn" -> Some DQ
   | x -> failwith ("bad quote " ^ to_string x)
+
+let nest_of = function A "sqn" | A "dqn" -> true | _ -> false
 
 let style_of (x : t) : style =
   match x with
   | L [q; br; pre; d] ->
     (match str_atom d with
-     | [c] -> { st_quote = quote_of q; st_bracket = bool_of_sym br; st_prefix = bool_of_sym pre; st_delim = c }
+     | [c] -> { st_quote = quote_of q; st_bracket = bool_of_sym br; st_prefix = bool_of_sym pre; st_delim = c;
+         st_nest = nest_of q }
      | _ -> failwith "style: delimiter must be one byte")
   | _ -> failwith ("bad style " ^ to_string x)
 
@@ -93,7 +97,6 @@ let handle (cmd : string) (args : t list) : t option =
   | "render", [sp; l] -> Some (s (render_ref (sep_of sp) (sseglist l)))
   | "wf", [sp; l] -> Some (bs (wf (sep_of sp) (sseglist l)))
   | "wfc", [sp; l] -> Some (bs (wfc (sep_of sp) (sseglist l)))
-  | "nodot", [l] -> Some (bs (List.for_all no_dot_key (sseglist l)))
   | "body", [sp; x] -> Some (s (body (sep_char (sep_of sp)) (sseg_of x)))
   | "canon", [txt] ->
     (* for each notation, on a fresh object: p = YAMLPath(T); p.separator = N; str(p);
